@@ -122,6 +122,10 @@ type QuerySpec struct {
 	Filter string `json:"filter,omitempty"`
 	Up     bool   `json:"up,omitempty"`     // filter addresses in the upper-case bech32 spelling
 	MidTx  int    `json:"mid_tx,omitempty"` // issue before the k-th tx (0 = at block start after BeginBlock)
+	// Rest: page limit of every page after the first ("the first few, then all the rest"); 0 = Limit
+	Rest uint64 `json:"rest,omitempty"`
+	// overflowed (set while paging): some request had offset+limit beyond 2^64-1
+	overflowed bool
 }
 
 // NoiseSpec is one call on a non-consensus ABCI surface of the *reference* node that the replicas
